@@ -149,6 +149,21 @@ def job_multi(args):
     return out
 
 
+def job_waiting(args):
+    """one track waits at the start, the other at the end (the optimal coupling runs along two sides of the lattice, as far
+    from its diagonal as a coupling can be), 13 to 17 fixes each, equal and unequal sizes"""
+    out = []
+    for m1, m2 in ((12, 12), (14, 12), (12, 16), (16, 16)):
+        for hi in (1, 3):
+            a = [(0,)] * m1 + [(hi,)]
+            b = [(0,)] + [(hi,)] * m2
+            out.extend(calls_for(a, b, 1, (1, 2, PINF), False))
+            a2 = [(0, 0)] * m1 + [(hi, 1)]
+            b2 = [(0, 0)] + [(hi, 1)] * m2
+            out.extend(calls_for(a2, b2, 2, (2,), False))
+    return out
+
+
 def job_random(args):
     seed, count = args
     rnd = random.Random(seed)
@@ -281,6 +296,7 @@ def run(ctx):
         jobs.append((job_multi, (ctx.seed * 29 + k, 40 if quick else 600)))
     for k in range(16):
         jobs.append((job_random, (ctx.seed * 37 + k, 25 if quick else 1500)))
+    jobs.append((job_waiting, None))
     events = []
     with mp.get_context("fork").Pool(16, initializer=core._pool_init, initargs=(None,)) as pool:
         res = [pool.apply_async(f, (a,)) for f, a in jobs]
